@@ -53,7 +53,16 @@ func ParseOne(r string) Clause {
 	rest := r
 	path := ""
 	hasPath := false
-	if strings.HasPrefix(rest, `"`) {
+	// a path may itself contain quotes (type strings of anonymous struct types): prefer the
+	// explicit `" input "` marker to find its end
+	if strings.HasPrefix(rest, `"`) && !strings.HasPrefix(rest, `", "`) {
+		if k := strings.Index(rest, `" input "`); k > 0 && !strings.Contains(rest[1:k], `", "`) {
+			path = rest[1:k]
+			hasPath = true
+			rest = rest[k+2:]
+		}
+	}
+	if !hasPath && strings.HasPrefix(rest, `"`) {
 		if j := strings.Index(rest[1:], `"`); j >= 0 {
 			path = rest[1 : 1+j]
 			after := rest[1+j+1:]
